@@ -211,7 +211,12 @@ func (vc *VC) term(st *State, v Val) string {
 		return vc.ptrToOpt(st, v)
 	}
 	if v.Term == "" && v.Clo != nil {
-		return vc.funcID(v.Clo.Fn)
+		id := vc.funcID(v.Clo.Fn)
+		if k := "clononnil:" + id; !vc.wf[k] {
+			vc.wf[k] = true
+			vc.fact(fmt.Sprintf("(not (= %s %s))", id, vc.S.Zero(v.Clo.Fn.Signature))) // a function literal / bound method is not the nil function value
+		}
+		return id
 	}
 	return v.Term
 }
